@@ -435,6 +435,17 @@ func cmdProps(args []string) {
 			}
 			break
 		}
+		// crafted pairs: one request-narrowing edit each, in a place the random bases reach rarely
+		for _, cp := range c13Crafted {
+			res := pool.Compare([]byte(cp[1]), []byte(cp[2]))
+			rep.Evaluations++
+			rep.DistinctNontrivial++
+			rep.Coverage["crafted:"+cp[0]]++
+			if res.Panic == "" && !hasBreaking(res) {
+				rep.Violations = append(rep.Violations, violation{Key: "c13/unreported[" + cp[0] + "]", What: "a breaking edit (" + cp[0] + ") is reported without any Breaking entry",
+					Input: map[string]interface{}{"a": json.RawMessage(cp[1]), "b": json.RawMessage(cp[2]), "edit": cp[0]}, Detail: dimpl.Lines(res)})
+			}
+		}
 		for i := 0; rep.Evaluations < *n && i < *n && pool.Crashes < maxCrashes; i++ {
 			g := &dspec.Gen{R: r.Fork(), Cov: map[string]int{}}
 			a := g.Spec()
@@ -741,6 +752,22 @@ func cmdC15(args []string) {
 	rep.write(filepath.Join(*out, "props.json"))
 	fmt.Printf("c15: %d evaluations, %d distinct non-trivial, %d violations, %d model cases\n", rep.Evaluations, rep.DistinctNontrivial, len(rep.Violations), ncase)
 }
+
+// c13Crafted: (edit, old, new). A request body composed of a base (allOf) and own properties beside it: a property of the
+// base becomes required / has its upper bound lowered / loses an enum value; the composed schema requires a new own property
+var c13Crafted = func() [][3]string {
+	doc := func(base, own string) string {
+		return `{"swagger":"2.0","info":{"title":"t","version":"1"},"paths":{"/pets":{"post":{"operationId":"addPet","parameters":[{"name":"pet","in":"body","required":true,"schema":{"$ref":"#/definitions/NewPet"}}],"responses":{"201":{"description":"created"}}}}},"definitions":{"PetBase":` + base + `,"NewPet":{"type":"object","allOf":[{"$ref":"#/definitions/PetBase"}],` + own + `}}}`
+	}
+	b0 := `{"type":"object","properties":{"name":{"type":"string","maxLength":20,"enum":["a","b","c"]},"age":{"type":"integer","maximum":30}}}`
+	o0 := `"properties":{"tag":{"type":"string"}}`
+	return [][3]string{
+		{"allOf-base-beside-properties:property-becomes-required", doc(b0, o0), doc(`{"type":"object","required":["name"],"properties":{"name":{"type":"string","maxLength":20,"enum":["a","b","c"]},"age":{"type":"integer","maximum":30}}}`, o0)},
+		{"allOf-base-beside-properties:maximum-lowered", doc(b0, o0), doc(`{"type":"object","properties":{"name":{"type":"string","maxLength":20,"enum":["a","b","c"]},"age":{"type":"integer","maximum":10}}}`, o0)},
+		{"allOf-base-beside-properties:enum-value-removed", doc(b0, o0), doc(`{"type":"object","properties":{"name":{"type":"string","maxLength":20,"enum":["a","b"]},"age":{"type":"integer","maximum":30}}}`, o0)},
+		{"allOf-base-beside-properties:own-property-becomes-required", doc(b0, o0), doc(b0, `"required":["tag"],"properties":{"tag":{"type":"string"}}`)},
+	}
+}()
 
 // c14Crafted: pairs built around the bookkeeping of the analyser rather than around one edit: a base definition that only an
 // allOf of an unreferenced definition names is renamed (the composing definition sorts before its base and after it);
